@@ -40,8 +40,8 @@ def matrix_programs():
     progs = []
     rng = random.Random(4242)
     for le in (None, "true", "false"):
-        for sp in (None, "u8", "u16", "u32"):
-            for ap in (None, "u8", "u16", "u32"):
+        for sp in (None, "u8", "u16", "u32", "u64"):
+            for ap in (None, "u8", "u16", "u32", "u64"):
                 cfg = dslgen.Cfg(options=False, pad_options=False)
                 p = dslgen.gen_program(rng, cfg)
                 opts = []
@@ -56,11 +56,95 @@ def matrix_programs():
     return progs
 
 
+ALL_KINDS_BODY = """MetaData Meta {
+    uint32 SeqNo `seq`,
+    char[8] Venue `venue`,
+    zchar[6] Zs `zs`,
+    string Txt `txt`,
+}
+
+packet Leg {
+    uint16 LegId,
+    string Sym,
+    repeat string Tags,
+}
+
+packet Ack {
+    uint8 Code,
+}
+
+packet Rej {
+    uint8 Code,
+    char[4] Why,
+    repeat Leg Legs,
+}
+
+root packet Msg {
+    uint16 MsgType,
+    SeqNo,
+    Venue,
+    Zs Zed,
+    Txt Note,
+    repeat Txt Notes,
+    repeat uint8 Flags,
+    repeat i64 Deltas,
+    repeat string Names,
+    repeat char[3] Tags,
+    @leftPad('0')
+    repeat char[5] Padded,
+    repeat zchar[4] Zeds,
+    u64 Big,
+    i8 Small,
+    f32 Rate,
+    f64 Px,
+    @rightPad('0')
+    char[7] Acct,
+    Leg TheLeg,
+    repeat Leg Legs,
+    Inner {
+        i8 A,
+        f64 Q,
+        repeat string Notes,
+        Leg Deep,
+    },
+    repeat Rows {
+        u16 No,
+        string Text,
+    },
+    uint32 BodyLen @lengthOf(Body),
+    match MsgType as Body {
+        1 : Ack,
+        [2, 3] : Rej,
+        65535 : Leg,
+    },
+    uint32 Crc @calculatedFrom("CRC32"),
+}
+"""
+
+
+def all_kinds_matrix():
+    """ONE program with every field kind, under every combination of byte order, string prefix and list prefix (u64 included)"""
+    out = []
+    for le in (None, "true", "false"):
+        for sp in (None, "u8", "u16", "u32", "u64"):
+            for ap in (None, "u8", "u16", "u32", "u64"):
+                opts = [("JavaPackage", '"com.example.msg"'), ("GoPackage", '"msg"'), ("GoModule", '"example.com/msg"')]
+                if le:
+                    opts.append(("LittleEndian", le))
+                if sp:
+                    opts.append(("StringPrefixLenType", sp))
+                if ap:
+                    opts.append(("ArrayPrefixLenType", ap))
+                out.append("options {\n" + "".join("    %s = %s;\n" % kv for kv in opts) + "}\n\n" + ALL_KINDS_BODY)
+    return out
+
+
 def gen_inputs(seed, n_random, profile="safe", with_matrix=True):
     rng = random.Random(seed)
     texts = list(corpus_texts())
     if with_matrix:
         texts += [dslgen.render(p) for p in matrix_programs()]
+        texts += all_kinds_matrix()
     cfg = (dslgen.Cfg() if profile == "safe" else dslgen.Cfg(length_any_target=True) if profile == "codec"
            else dslgen.Cfg(allow_char=True, odd_names=True, unique_inline=False))
     for _ in range(n_random):
@@ -112,6 +196,18 @@ def run_pipeline(texts, tag):
                     where.append(ent)
         for ent, o in zip(where, leandrv.run_ops(reqs)):
             ent["conform"] = o
+        # declared scalar types against the member types of the typed targets and the accessor names of Python: signedness is
+        # not in the IR (a value is its two's-complement residue there), so it is compared here, outside the validators
+        texts_ok = [item["text"] for item in out if "error" not in item]
+        schemas = dict(zip(texts_ok, leandrv.run_ops([{"op": "schema", "text": t} for t in texts_ok]))) if texts_ok else {}
+        for item in out:
+            sch = schemas.get(item.get("text"))
+            if not sch or "packets" not in sch:
+                continue
+            for lang, ent in item["targets"].items():
+                c = ent.get("conform") or {}
+                if "reasons" in c and "prog" in ent:
+                    c["reasons"] = c["reasons"] + member_type_reasons(lang, ent["prog"]["structs"], sch)
         os.makedirs(CACHE, exist_ok=True)
         tmp = path + ".tmp%d" % os.getpid()
         with open(tmp, "w") as fh:
@@ -119,6 +215,51 @@ def run_pipeline(texts, tag):
         os.replace(tmp, path)
         prune_cache()
         return out
+
+
+MEMBER_TYPES = {
+    "go": {"u8": "uint8", "u16": "uint16", "u32": "uint32", "u64": "uint64", "i8": "int8", "i16": "int16", "i32": "int32", "i64": "int64",
+           "f32": "float32", "f64": "float64"},
+    "rust": {t: t for t in ("u8", "u16", "u32", "u64", "i8", "i16", "i32", "i64", "f32", "f64")},
+    "cpp": {"u8": "uint8_t", "u16": "uint16_t", "u32": "uint32_t", "u64": "uint64_t", "i8": "int8_t", "i16": "int16_t", "i32": "int32_t",
+            "i64": "int64_t", "f32": "float", "f64": "double"},
+    # Java has no unsigned types: the carrier of a u<N> is the signed type of the same width (its own decoder and encoder agree on it)
+    "java": {"u8": "byte", "u16": "short", "u32": "int", "u64": "long", "i8": "byte", "i16": "short", "i32": "int", "i64": "long",
+             "f32": "float", "f64": "double"},
+}
+LIST_OF = {"go": "[]%s", "rust": "Vec<%s>", "cpp": "std::vector<%s>", "java": "List<%s>"}
+JAVA_BOX = {"byte": "Byte", "short": "Short", "int": "Integer", "long": "Long", "float": "Float", "double": "Double"}
+
+
+def member_type_reasons(lang, structs, schema):
+    """reasons (same shape as the validators') for scalar members whose target-language type is not the declared one"""
+    out = []
+    for p in schema["packets"]:
+        st = next((s for s in structs if s["name"].lower().replace("_", "") == p["name"].lower().replace("_", "")), None)
+        if st is None or len(st.get("members") or []) != len(p["fields"]):
+            continue          # missing struct / member count: reported by the validators
+        for i, (f, m) in enumerate(zip(p["fields"], st["members"])):
+            if f["kind"] not in ("scalar", "length", "checksum") or f["ty"] == "char":
+                continue
+            kind = {"scalar": "scalar", "length": "length", "checksum": "checksum"}[f["kind"]] + ("[]" if f["rep"] else "")
+            if lang == "python":
+                got = (st.get("accessors") or {}).get(m["id"])
+                if got is None:
+                    continue
+                want = [f["ty"]]
+                if got != want:
+                    out.append({"side": "enc", "packet": p["name"], "field": f["name"], "kind": kind, "attr": "accessor-type",
+                                "expected": "buffer.write_/read_%s" % f["ty"], "got": ",".join(got)})
+                continue
+            want = MEMBER_TYPES.get(lang, {}).get(f["ty"])
+            if want is None:
+                continue
+            if f["rep"]:
+                want = LIST_OF[lang] % (JAVA_BOX[want] if lang == "java" else want)
+            if m.get("ty") != want:
+                out.append({"side": "enc", "packet": p["name"], "field": f["name"], "kind": kind, "attr": "member-type",
+                            "expected": want, "got": str(m.get("ty"))})
+    return out
 
 
 def prune_cache(keep=10):
